@@ -19,8 +19,8 @@ RULE = ('tuples of 1-5 page layouts x 1-6 lines with identical ids, per-engine c
 ASSUMPTIONS = ['every transcription is over its own engine\'s charset', 'the mean character confidence is the repository\'s get_line_confidence (itself under the C16 contracts), 0.5 per character when alignment raises ValueError, -10 for empty/None',
                'confidence equality within 1e-12']
 N = {'quick': 1500, 'thorough': 60000}
-CLASSES = ['mixed', 'mixed', 'ties', 'self_merge', 'all_empty', 'different_charsets', 'single_engine', 'unalignable']
-REQUIRED = ['merges', 'lines_checked', 'winner_not_first', 'ties_checked', 'self_merges', 'no_positive_confidence_lines']
+CLASSES = ['mixed', 'mixed', 'ties', 'self_merge', 'all_empty', 'different_charsets', 'single_engine', 'unalignable', 'per_line_charsets', 'merge_of_merges']
+REQUIRED = ['per_line_charset_merges', 'merges', 'lines_checked', 'winner_not_first', 'ties_checked', 'self_merges', 'no_positive_confidence_lines']
 
 
 def setup(ctx):
@@ -57,7 +57,13 @@ def gen(rng, i, ctx):
             mode = str(rng.choice(['peaky', 'noisy', 'diffuse', 'short', 'transformer']))
             if cls == 'unalignable':
                 mode = str(rng.choice(['short', 'diffuse']))
-            lines.append({'text': t, 'mode': mode, 'seed': int(rng.integers(0, 1 << 30))})
+            ld = {'text': t, 'mode': mode, 'seed': int(rng.integers(0, 1 << 30))}
+            if cls in ('per_line_charsets', 'merge_of_merges'):
+                # the lines of one layout carry different character tables (same symbols, different order), as after an earlier merge
+                pc = list(cs)
+                rng.shuffle(pc)
+                ld['chars'] = pc
+            lines.append(ld)
         engines.append({'chars': cs, 'lines': lines})
     if cls == 'ties' and ne >= 2:
         engines[int(rng.integers(1, ne))] = copy.deepcopy(engines[0])
@@ -72,7 +78,7 @@ def build_layout(L, eng, nl):
     pl = L.PageLayout(id='p', page_size=(400, 600))
     regs = [L.RegionLayout('r1', np.array([[0, 0], [600, 0], [600, 200], [0, 200]])), L.RegionLayout('r2', np.array([[0, 200], [600, 200], [600, 400], [0, 400]]))]
     for k, ld in enumerate(eng['lines']):
-        cs = eng['chars']
+        cs = ld.get('chars', eng['chars'])
         C = len(cs) + 1
         rng = np.random.default_rng(ld['seed'])
         t = ld['text']
@@ -111,6 +117,10 @@ def run_merge(case, order, mon, ctx):
     L, M = ctx.layout, ctx.M
     engines = [case['engines'][k] for k in order]
     layouts = [build_layout(L, e, case['nl']) for e in engines]
+    if case['cls'] == 'merge_of_merges' and len(layouts) >= 3:
+        # multi-step history: merge(E1, E2) first, then merge the result with the remaining engines
+        M.merge_layouts(layouts[:2])
+        layouts = [layouts[0]] + layouts[2:]
     if case['cls'] == 'self_merge':
         layouts = [layouts[0], layouts[0]] if len(layouts) < 2 or order[0] % 2 == 0 else [layouts[0], copy.deepcopy(layouts[0])]
         mon.count('self_merges')
@@ -134,6 +144,8 @@ def run_merge(case, order, mon, ctx):
         mon.violation('merge-raises', {'order': order, 'exception': repr(ex)[:300]})
         return
     mon.count('merges')
+    if case['cls'] in ('per_line_charsets', 'merge_of_merges'):
+        mon.count('per_line_charset_merges')
     merged = layouts[0]
     if [(r.id, [l.id for l in r.lines]) for r in merged.regions] != [(a, b) for a, b, _ in region_ids] or any(not np.array_equal(r.polygon, p) for r, (_, _, p) in zip(merged.regions, region_ids)):
         mon.violation('ids-and-geometry-unaltered', {'order': order, 'what': 'regions'})
